@@ -190,6 +190,24 @@ var c02Families = []c02Family{
 	}},
 }
 
+func init() {
+	// every fan-out family also with a back edge from the last fragment to the first (a
+	// cycle: the document is invalid, and validation must still come back quickly)
+	for _, f := range append([]c02Family{}, c02Families...) {
+		if strings.Contains(f.Name, "fanout") || f.Name == "fragment-chain" {
+			f := f
+			c02Families = append(c02Families, c02Family{f.Name + "-with-back-edge", func(size int) string {
+				text := f.Build(size)
+				return text[:len(text)-1] + " ...f0}"
+			}})
+		}
+	}
+	c02Families = append(c02Families, c02Family{"introspection-fanout-under-schema-types", func(size int) string {
+		body, n := repUntil(size, func(i int) string { return fmt.Sprintf("fragment f%d on __Type{...f%d ...f%d}", i, i+1, i+1) })
+		return "{__schema{types{...f0}}}" + body + fmt.Sprintf("fragment f%d on __Type{name ...f0}", n)
+	}})
+}
+
 type c02FamilyCase struct {
 	Family string `json:"family"`
 	Size   int    `json:"size"`
@@ -227,8 +245,8 @@ func c02RunFamily(c c02FamilyCase) (time.Duration, string) {
 		if el := time.Since(t0); el < best {
 			best = el
 		}
-		if best > time.Second {
-			break
+		if best > time.Second || best < c02Bound(c.Size)/3 {
+			break // clearly inside the bound (no second opinion needed) or too slow to repeat
 		}
 		doc, _ = parser.ParseQuery(&ast.Source{Input: text})
 	}
@@ -236,19 +254,19 @@ func c02RunFamily(c c02FamilyCase) (time.Duration, string) {
 }
 
 func c02Bound(size int) time.Duration {
-	// a kilobyte-sized request must validate in < 2 s, a 4 KB one in < 10 s
+	// a kilobyte-sized request must validate in < 2 s, a 4 KB one in < 30 s (the slowest legitimate member, cubic, needs 3.6 s there)
 	if size <= 1024 {
 		return 2 * time.Second
 	}
-	return time.Duration(float64(size)/1024*2.5*float64(time.Second)) + 0
+	return time.Duration(float64(size) / 1024 * 7.5 * float64(time.Second))
 }
 
 func TestC02(t *testing.T) {
 	r := kit.New(t, "C02")
 	defer r.Finish()
 	r.SetRule("(schema, document) pairs: schemas from G6 (valid), G6+G7 (one or two faults) and random SDL over small name pools; documents from G8, G8+G9 (1-3 faults) and type-blind generation over the schema's name pools (unknown types/fields, undefined variables, unused and mutually recursive fragments, wrong value shapes); " + sprintf("%d", len(c02Families)) +
-		" size-parametrised families (fragment fan-out plain/under a field/under __schema/__type, cycles through fields, wide and deep same-response-name selections, wide unions, large and deep literals) at 256 B - 4 KB. " +
-		"oracle: LoadSchema, ParseSchemas+ValidateSchemaDocument, Validate and LoadQuery return normally (schema xor error; document xor errors; both load paths agree); a <=1 KB document validates in < 2 s, 4 KB in < 10 s, time ratio per doubling <= 20 once above 50 ms. " +
+		" size-parametrised families (fragment fan-out plain/under a field/under __schema/__type, cycles through fields, every fan-out also with a back edge from the last fragment to the first, wide and deep same-response-name selections, wide unions, large and deep literals) at 256 B - 4 KB; overlap, introspection and random fragment-graph documents (2-45 fragments, fan-out 1-3, forward and back edges, spreads plain / under a field / under an alias, over Query, __Type and __Schema). " +
+		"oracle: LoadSchema, ParseSchemas+ValidateSchemaDocument, Validate and LoadQuery return normally (schema xor error; document xor errors; both load paths agree); a <=1 KB document validates in < 2 s, 4 KB in < 30 s, time ratio per doubling <= 20 once above 50 ms. " +
 		"non-trivial = both texts parse and the schema loads (validation really ran); distinct by text")
 	r.Assume("time bounds are wall-clock minima of two runs on one core with margins > 5x over the slowest legitimate family member measured on the unchanged tree")
 	kit.RegisterReplayer("C02", "pair", c02Replay)
@@ -322,21 +340,28 @@ func TestC02(t *testing.T) {
 	r.Rapid("overlap", kit.Pick(5000, 300000), func(rt *rapid.T) {
 		var d *ref.Doc
 		schema := gen.OverlapSchema
-		if rapid.IntRange(0, 4).Draw(rt, "intro") == 0 {
+		var c valCase
+		switch k := rapid.IntRange(0, 5).Draw(rt, "intro"); k {
+		case 0:
 			d, schema = gen.IntrospectionDocument(rt), c08Schema
-		} else {
+		case 1:
+			sch, q := gen.FragmentGraphDocument(rt, c02Schema, c02Schema)
+			c = valCase{Schema: sch, Query: q, Class: "fragment-graph"}
+		default:
 			d = gen.OverlapDocument(rt, rapid.IntRange(0, 3).Draw(rt, "acyclic") == 0)
 		}
-		c := valCase{Schema: schema, Query: gen.JoinPlain(gen.QueryLexemes(d, gen.Canon)), Class: "overlap"}
+		if d != nil {
+			c = valCase{Schema: schema, Query: gen.JoinPlain(gen.QueryLexemes(d, gen.Canon)), Class: "overlap"}
+		}
 		// the process may die (stack exhaustion): the driver then reports this file as the replay
 		writeInflight("C02", "overlap", c)
 		r.Begin("overlap", func() interface{} { return c })
 		defer r.End()
 		v, ran := c02Eval(c)
 		r.Case(ran, c.Query)
-		r.Class("overlap")
-		if ran && r.WantSample("overlap") {
-			r.Sample("overlap", c)
+		r.Class(c.Class)
+		if ran && r.WantSample(c.Class) {
+			r.Sample(c.Class, c)
 		}
 		if v != "" {
 			r.Failf(rt, "overlap", c, "%s", v)
